@@ -409,7 +409,7 @@ pub fn run(run: &Run) {
          symbols over a 30-symbol alphabet in 3 embeddings, all 1- and 2-byte files; (iii) 13 \
          recursion-prone constructs at sizes 10..10^4 through the binary; (iv) corpus x 3 curves x 3 \
          levels x verbose x sarif through the binary; (v) 21 main-component forms x 4 public lists; \
-         (vi) 12 multi-file scenarios (include cycles, library cycles, diamonds, files named twice); non-trivial = input accepted by the parser or \
+         (vi) 12 multi-file scenarios (include cycles, library cycles, diamonds, files named twice); (vii) ~1100 header forms (version pragmas with 1-4 components over a number alphabet reaching beyond 2^64 and 2^128, other pragmas, repeated pragmas); non-trivial = input accepted by the parser or \
          rejected with a diagnostic (anything but a crash is an evaluated case), counted distinct",
     );
     let root = work_dir("c01");
@@ -535,6 +535,34 @@ pub fn run(run: &Run) {
             Err(p) => run.violation(panic_violation(p, &case, &src)),
         }
     });
+    // (vii) header forms: every pragma line built from a number alphabet that includes values
+    // beyond usize / u64, with 1-4 components, and the other pragmas, in every order.
+    let numbers = ["0", "2", "1", "4", "00002", "99", "18446744073709551615", "18446744073709551616", "99999999999999999999999", "340282366920938463463374607431768211456"];
+    let mut headers: Vec<String> = Vec::new();
+    for a in numbers {
+        headers.push(format!("pragma circom {a};"));
+        for b in numbers {
+            headers.push(format!("pragma circom {a}.{b};"));
+            for c in numbers {
+                headers.push(format!("pragma circom {a}.{b}.{c};"));
+            }
+        }
+    }
+    for extra in ["pragma circom 2.1.4.0;", "pragma circom 2.1.4\n", "pragma circom;", "pragma circom 2 . 1 . 4;", "pragma custom_templates;", "pragma custom_templates;\npragma circom 2.1.4;", "pragma circom 2.1.4;\npragma custom_templates;", "pragma circom 2.1.4;\npragma circom 2.0.0;", "pragma nosuch;", "pragma circom 2.1.4;\npragma custom_templates;\npragma custom_templates;", "pragma circom 0x2.1.4;", "pragma circom -2.1.4;"] {
+        headers.push(extra.to_string());
+    }
+    run.set_extra("header_forms", json!(headers.len()));
+    par_each(&headers, |_, h| {
+        let src = format!("{h}\ntemplate T() {{\n    signal input in;\n    signal output out;\n    out <== in;\n}}\n");
+        let case = json!({"kind": "header", "header": h});
+        run.watch(&case);
+        let dir = thread_dir(&root);
+        run.eval(1);
+        match drive(&dir, "h.circom", src.as_bytes(), Curve::Bn254) {
+            Ok(_) => run.nontrivial(1),
+            Err(p) => run.violation(panic_violation(p, &case, &src)),
+        }
+    });
     run.idle();
     // (vi) multi-file scenarios through the binary.
     par_each(&SCENARIOS, |i, name| {
@@ -652,6 +680,13 @@ pub fn replay(case: &Value) -> Vec<Violation> {
             match drive(&root, "b.circom", &bytes, Curve::Bn254) {
                 Ok(_) => Vec::new(),
                 Err(p) => vec![panic_violation(p, case, &String::from_utf8_lossy(&bytes))],
+            }
+        }
+        Some("header") => {
+            let src = format!("{}\ntemplate T() {{\n    signal input in;\n    signal output out;\n    out <== in;\n}}\n", case["header"].as_str().unwrap_or(""));
+            match drive(&root, "h.circom", src.as_bytes(), Curve::Bn254) {
+                Ok(_) => Vec::new(),
+                Err(p) => vec![panic_violation(p, case, &src)],
             }
         }
         Some("scenario") => check_scenario(case["scenario"].as_str().unwrap_or("self-include"), &root, case),
